@@ -146,4 +146,3 @@ func MkPost[O, S any](ret func() (any, bool)) compose.GraphAddNodeOpt {
 		return out, nil
 	})
 }
-
